@@ -715,9 +715,11 @@ fn encrypted(r: &mut Rng, to_device: bool) -> B {
 }
 
 fn call_version(r: &mut Rng) -> Value {
-    match r.below(3) {
+    match r.below(4) {
         0 => json!(0),
         1 => json!("1"),
+        // the string spelling of version 0 is NOT the variant V0 (documented): it must stay a string
+        2 => json!("0"),
         _ => json!("org.example.voip"),
     }
 }
